@@ -49,8 +49,9 @@ Definition ext_level (variant : lit) : level :=
 
 Definition pos_get (variant : lit) (l : level) (d : attr_decl) : gexp :=
   attr_gexp post_id (xfrm_chain variant ok_none ++ [l]) (lv_path l) d.
+(** the element-level x / y / cx / cy setters validate with the simple type before the first get_or_add *)
 Definition pos_set (variant : lit) (l : level) (d : attr_decl) : prog :=
-  attr_prog pre_id (xfrm_chain variant ok_none ++ [l]) (lv_path l) d.
+  Seq (SCheck (ad_codec d) (ad_kind d)) (attr_prog pre_id (xfrm_chain variant ok_none ++ [l]) (lv_path l) d).
 
 Definition shape_entries (variant : lit) : list entry :=
   [ mk "BaseShape" "left" variant (pos_get variant (off_level variant) A_CT_Point2D__x) (pos_set variant (off_level variant) A_CT_Point2D__x);
@@ -88,10 +89,11 @@ Definition sldSz : list level := [lv "p:sldSz" (LEnsure []) ok_none].
 Definition pre_none_to (x : pyval) (v : aval) : res aval :=
   match av_val v with PNone => Ok (plain x) | _ => Ok v end.
 Definition prs_entries : list entry :=
-  [ mk "Presentation" "slide_width" "" (attr_gexp post_id sldSz (pth "p:sldSz") A_CT_SlideSize__cx)
-       (attr_prog pre_id sldSz (pth "p:sldSz") A_CT_SlideSize__cx);
+  [ (* ST_SlideSizeCoordinate.validate first, then get_or_add_sldSz *)
+    mk "Presentation" "slide_width" "" (attr_gexp post_id sldSz (pth "p:sldSz") A_CT_SlideSize__cx)
+       (Seq (SCheck (ad_codec A_CT_SlideSize__cx) (ad_kind A_CT_SlideSize__cx)) (attr_prog pre_id sldSz (pth "p:sldSz") A_CT_SlideSize__cx));
     mk "Presentation" "slide_height" "" (attr_gexp post_id sldSz (pth "p:sldSz") A_CT_SlideSize__cy)
-       (attr_prog pre_id sldSz (pth "p:sldSz") A_CT_SlideSize__cy);
+       (Seq (SCheck (ad_codec A_CT_SlideSize__cy) (ad_kind A_CT_SlideSize__cy)) (attr_prog pre_id sldSz (pth "p:sldSz") A_CT_SlideSize__cy));
     mk "_BaseSlide" "name" ""
        (attr_gexp post_id [lv "p:cSld" LMust no_attr] (pth "p:cSld") A_CT_CommonSlideData__name)
        (attr_prog (pre_none_to (PStr [])) [lv "p:cSld" LMust no_attr] (pth "p:cSld") A_CT_CommonSlideData__name) ].
@@ -120,7 +122,9 @@ Definition pre_auto_size (v : aval) : res aval :=
   match av_val v with
   | PNone => Ok v
   | x => match int_value x with
-         | Some z => if existsb (Z.eqb z) (map fst E_MSO_AUTO_SIZE) then Ok v else Err ValueErr
+         | Some z => if existsb (Z.eqb z) (map fst E_MSO_AUTO_SIZE)
+                     then (if Z.eqb z (-2) then Err ValueErr else Ok v)      (* MIXED is a return value only *)
+                     else Err ValueErr
          | None => Err ValueErr
          end
   end.
@@ -414,7 +418,7 @@ Definition pre_brightness_range (v : aval) : res aval :=
   | Ok false => match py_gt (av_val v) (PFloat (Fin 1 0)) with
                 | Err e => Err e
                 | Ok true => Err ValueErr
-                | Ok false => Ok v
+                | Ok false => if py_eqb (av_val v) (av_val v) then Ok v else Err ValueErr    (* value != value: NaN *)
                 end
   end.
 Definition one_minus (v : aval) : res aval :=
@@ -436,12 +440,14 @@ Definition pos_num (v : aval) : bool := match py_gt (av_val v) (PInt 0) with Ok 
 Definition neg_num (v : aval) : bool := match py_lt (av_val v) (PInt 0) with Ok b => b | Err _ => false end.
 Definition set_pct (x c : lit) : step :=
   SSetAttr (pth (sub x c)) (ad_attr A_CT_Percentage__val) (ad_codec A_CT_Percentage__val) (ad_kind A_CT_Percentage__val).
+(** add_lumMod / add_lumOff assign val before the element is inserted *)
+Definition chk_pct : step := SCheck (ad_codec A_CT_Percentage__val) (ad_kind A_CT_Percentage__val).
 Definition brightness_on (x : lit) : prog :=
   If (CPred pos_num)
-     (lum_clear x (Seq (SAdd (pth (sub x "a:lumMod")) []) (Seq (SWith one_minus (set_pct x "a:lumMod"))
-                  (Seq (SAdd (pth (sub x "a:lumOff")) []) (Seq (set_pct x "a:lumOff") Done)))))
+     (lum_clear x (Seq (SWith one_minus chk_pct) (Seq (SAdd (pth (sub x "a:lumMod")) []) (Seq (SWith one_minus (set_pct x "a:lumMod"))
+                  (Seq chk_pct (Seq (SAdd (pth (sub x "a:lumOff")) []) (Seq (set_pct x "a:lumOff") Done)))))))
      (If (CPred neg_num)
-         (lum_clear x (Seq (SAdd (pth (sub x "a:lumMod")) []) (Seq (SWith one_minus_abs (set_pct x "a:lumMod")) Done)))
+         (lum_clear x (Seq (SWith one_minus_abs chk_pct) (Seq (SAdd (pth (sub x "a:lumMod")) []) (Seq (SWith one_minus_abs (set_pct x "a:lumMod")) Done))))
          (lum_clear x Done)).
 Definition brightness_set : prog :=
   Seq (SMap pre_brightness_range)
@@ -667,7 +673,10 @@ Definition series_entries : list entry :=
   [ ensure_val "LineSeries" "smooth" "" pre_id post_id [] "c:smooth" (Ok (PBool true)) A_CT_Boolean__val A_CT_Boolean__val;
     ensure_val "BarSeries" "invert_if_negative" "" pre_id post_id [] "c:invertIfNegative" (Ok (PBool true))
                (explicit_decl A_CT_Boolean_Explicit___val) A_CT_Boolean_Explicit___val;
-    mk "Marker" "size" "" (child_gexp post_id marker_ch (pth "c:marker/c:size") ok_none A_CT_MarkerSize__val) (marker_set "c:marker/c:size" A_CT_MarkerSize__val);
+    (* size: ST_MarkerSize.to_xml(value) is evaluated first unless value is None *)
+    mk "Marker" "size" "" (child_gexp post_id marker_ch (pth "c:marker/c:size") ok_none A_CT_MarkerSize__val)
+       (If CNone (marker_set "c:marker/c:size" A_CT_MarkerSize__val)
+           (Seq (SCheck (ad_codec A_CT_MarkerSize__val) AReq) (marker_set "c:marker/c:size" A_CT_MarkerSize__val)));
     (* style: XL_MARKER_STYLE.to_xml(value) is evaluated first unless value is None *)
     mk "Marker" "style" "" (child_gexp post_id marker_ch (pth "c:marker/c:symbol") ok_none A_CT_MarkerStyle__val)
        (If CNone (marker_set "c:marker/c:symbol" A_CT_MarkerStyle__val)
@@ -680,6 +689,7 @@ Definition raw_int_codec : codec :=
      dec := fun s => py_int (PStr s) |}.
 Definition pre_adjust (v : aval) : res aval :=
   match av_val v with
+  | PFloat NaN | PFloat PInf | PFloat NInf => Err ValueErr          (* must be finite *)
   | PInt _ | PBool _ | PFloat _ =>
       match py_mul (av_val v) (PFloat (Fin 100000 0)) with
       | Ok x => match py_int x with Ok z => Ok (plain z) | Err e => Err e end
